@@ -439,6 +439,19 @@ func Explore(ld *Loaded, cfg *Config) *RunResult {
 					}
 					mu.Unlock()
 
+					if in.tt.next > 1200000 || len(in.qcache) > 600000 {
+						// bound memory: start over with a fresh term table (terms never cross paths;
+						// everything keyed by term ids goes with it, including the init snapshot)
+						in.tt = NewTermTable()
+						in.solver.tt = in.tt
+						in.solver.Reset()
+						in.qcache = map[string]string{}
+						in.ecache = map[string][]int64{}
+						in.varCache = map[int][]int{}
+						in.varIDs = map[string]int{}
+						in.raceCache = map[string]string{}
+						in.snap = nil
+					}
 					res := in.runPath(h, prefix, doSample)
 
 					mu.Lock()
